@@ -91,6 +91,8 @@ def _init_worker():
     world.reset_scratch_for_child()
     import atexit
     atexit.register(world.cleanup_scratch)
+    if _CHECK is not None and hasattr(_CHECK, "worker_init"):
+        _CHECK.worker_init()
 
 
 def _run(group):
